@@ -185,6 +185,12 @@ func MarshalWrite(out io.Writer, in any, opts ...Options) (err error) {
 	xe := export.Encoder(enc)
 	xe.Flags.Set(jsonflags.OmitTopLevelNewline | 1)
 	err = marshalEncode(enc, in, &xe.Struct)
+	if err == nil && len(xe.Buf) > 0 {
+		// The flush after the top-level value may have failed within a call
+		// made by a user-provided marshaler that dropped the error.
+		// Never report success while output is still buffered.
+		err = xe.Flush()
+	}
 	if err != nil && xe.Flags.Get(jsonflags.ReportErrorsWithLegacySemantics) {
 		return internal.TransformMarshalError(in, err)
 	}
